@@ -3951,6 +3951,32 @@ func (e *Env) resultFacts(r *ssa.Return, m map[string]Fact) {
 	for i := range r.Results {
 		rv := liveRetval(r, i)
 		rt := e.Term(rv)
+		// an integer result that is a sum of several terms (`fixed + n*perByte`): a fact  X − result ≥ 0  (or X + result) is
+		// stated over the result as a whole
+		if isInteger(rv.Type()) {
+			if R := e.LE(rv); len(R.c) >= 2 {
+				tag := fmt.Sprintf("ret#%d", i)
+				for _, f := range m {
+					if !f.Lin {
+						continue
+					}
+					for _, sgn := range []int64{1, -1} {
+						rest := f.LE.add(R, sgn) // f = rest − sgn·R
+						gone := true
+						for a := range R.c {
+							if _, still := rest.c[a]; still {
+								gone = false
+							}
+						}
+						if gone {
+							g := f
+							g.LE = rest.add(leAtom(tag), -sgn)
+							m[g.Key()] = g
+						}
+					}
+				}
+			}
+		}
 		if a, k0, ok := e.resultAtom(rv); ok {
 			// an integer result atom + k: linear facts over the atom become facts over the result
 			for _, f := range m {
@@ -4090,6 +4116,13 @@ func (sub *Env) rewriteResults(call *ssa.Call, fs []Fact) []Fact {
 		if len(r.Results) > 0 && (!lastIsError(sub.Fn) || isSuccessReturn(r)) {
 			if al, ok := retval(r, 0).(*ssa.Alloc); ok && al.Heap {
 				if _, isStruct := al.Type().(*types.Pointer).Elem().Underlying().(*types.Struct); isStruct {
+					freshResult = true
+				}
+			}
+			// … or hands back a number computed from such values (`return fixed + n*perByte, nil` after `if provided < … {fail}`):
+			// the caller sees the number as that expression, so what the callee established about it still says something
+			for i := range r.Results {
+				if rv := retval(r, i); isInteger(rv.Type()) && strings.Contains(sub.LE(rv).String(), internal) {
 					freshResult = true
 				}
 			}
